@@ -94,8 +94,8 @@ theorem rsrc2_rewriting_on_fields (w x : BitVec 32) (c : Bool) :
     rwa [Rsrc2.enc_dec, Rsrc2.enc_dec] at this
   · rw [fixRsrc2_eq_iff, Rsrc2.norm_eq_iff]
 
-/-- **kd_roundtrip_typed.** For every typed descriptor in the layout the loader reads
-(rsrc3 @40, rsrc1 @44, rsrc2 @48) and whatever bytes 12..15, 24..39, 52..63 hold: the
+/-- **kd_roundtrip_typed.** For every typed descriptor in the ABI layout, which the repaired
+loader reads (rsrc3 @44, rsrc1 @48, rsrc2 @52), and whatever bytes 12..15, 24..43, 56..63 hold: the
 derived metadata is `KdV.derived` (sizes, entry, rsrc3, rsrc1 verbatim; rsrc2 normalised;
 counts = (granule+1)·4 / ·8; kernarg enable = size > 0), reading it back returns the
 descriptor with rsrc2 normalised, the ignored fields are independent, and the round trip
@@ -111,9 +111,9 @@ theorem kd_roundtrip_typed (k : KdV) (g : KdIgnored) :
   simp [KdV.normalised]
 
 /-- **kd_parse_injective.** Two descriptors parse to the same metadata **iff** they agree on
-bytes 0..11, 16..23, 40..47 and their words at 48 are indistinguishable after the rewriting
-(`rsrc2_rewriting_on_fields` says which those are). Bytes 12..15, 24..39, 52..63 — among
-them the ABI's rsrc2 and kernel_code_properties — are ignored. -/
+bytes 0..11, 16..23, 44..51 and their words at 52 are indistinguishable after the rewriting
+(`rsrc2_rewriting_on_fields` says which those are). Bytes 12..15, 24..43, 56..63 — among
+them kernel_code_properties and kernarg_preload — are ignored. -/
 theorem kd_parse_injective (a b : Bytes) :
     parseV5KernelDescriptor a = parseV5KernelDescriptor b ↔ KdAgree a b :=
   parseV5KernelDescriptor_eq_iff a b
@@ -255,7 +255,7 @@ theorem load_typed_v3 (secs : List Section) (text : Section) (td : Bytes) (syms 
 
 /-- **load_typed_v5 (end to end).** A well-placed kernel symbol together with a `<k>.kd`
 symbol of size 64 lying inside `.rodata` whose bytes are a serialised typed descriptor
-(loader layout, any ignored bytes) loads as: exactly the symbol's bytes (never stripped),
+(ABI layout, any ignored bytes) loads as: exactly the symbol's bytes (never stripped),
 exactly the derived metadata raised by the register-count symbols, version 5, that symbol. -/
 theorem load_typed_v5 (secs : List Section) (text : Section) (td : Bytes) (syms : List Symbol) (k : String)
     (s : Symbol) (ro : Section) (rod : Bytes) (ks : Symbol) (sec : Section) (kd : KdV) (gi : KdIgnored)
@@ -362,10 +362,11 @@ example : ¬ HdrAgree (encodeHeader exHeaderV exIgnored) (encodeHeader { exHeade
   revert this
   decide +kernel
 
-/-- the shipped BitonicSort descriptor, typed in the loader's slots: rsrc2 0x00af0041 is not normalised -/
+/-- the shipped BitonicSort descriptor, typed: its stored rsrc2 0x84 is not normalised (→ 0x984) -/
 def exKdV : KdV :=
-  { lds := 0, priv := 0, kernarg := 280, entry := 0, rsrc3 := 0, rsrc1 := Rsrc1.dec 2, rsrc2 := Rsrc2.dec 0x00af0041 }
-example : (exKdV.rsrc2.norm true).enc = 0x00af09c4#32 := by decide +kernel
+  { lds := 0, priv := 0, kernarg := 280, entry := 0, rsrc3 := 2, rsrc1 := Rsrc1.dec 0x00af0041, rsrc2 := Rsrc2.dec 0x84 }
+example : (exKdV.rsrc2.norm true).enc = 0x984#32 := by decide +kernel
+example : (exKdV.derived.wiVgpr, exKdV.derived.wfSgpr) = (8, 16) := by decide +kernel
 example : exKdV.normalised ≠ exKdV := by decide +kernel
 
 
@@ -382,7 +383,7 @@ example : loadKernel ⟨exV3Secs, some [⟨"k", 0x1002, 260, 1⟩]⟩ "k" =
 
 /-- load_typed_v5 on the two-kernel example of `Props/C13.lean`: kernel `b`, descriptor = BitonicSort's -/
 def exKdIgn : KdIgnored :=
-  { reserved12 := 0, reserved24 := 0, reserved32 := 0, word52 := 0x84, half56 := 8, half58 := 0, reserved60 := 0 }
+  { reserved12 := 0, reserved24 := 0, reserved32 := 0, reserved40 := 0, props := 8, preload := 0, reserved60 := 0 }
 example : encodeKd exKdV exKdIgn = renderKd bitonicKd := by decide +kernel
 example : loadKernel ⟨exSecs, some exSyms1⟩ "b" =
     .ok { data := (exText.drop 4).take 260, md := overrideRegs "b" exKdV.derived exSyms1, version := 5,
